@@ -209,8 +209,14 @@ theorem sameDs_replaceWildcard (g : LGraph) (tgt : DS) (srcCols : List Column) (
     (h1 : tw.isCol = true) (h2 : sw.isCol = true) : SameDs g (replaceWildcard g tgt srcCols tw sw) := by
   unfold replaceWildcard
   simp only
+  have key : ∀ (G : LGraph), SameDs g G →
+      SameDs g (if (G.hasNode tw && (getSourceColumns G tw).isEmpty) = true then G.removeNode tw else G) := by
+    intro G hG
+    split
+    · exact hG.trans (sameDs_removeNode G tw h1)
+    · exact hG
+  apply key
   apply sameDs_ite_removeNode _ _ _ h2
-  apply sameDs_ite_removeNode _ _ _ h1
   apply sameDs_foldl
   intro b a _
   split
